@@ -387,6 +387,28 @@ pub fn directed(all: bool) -> Vec<Trace> {
         t.sessions = vec![s];
         v.push(t);
     }
+    // the regression section of the pool (minimised expressions of repaired defects) under every code
+    for (ci, code) in CODES.iter().enumerate() {
+        let mut t = Trace::new("C20", "C20");
+        t.origin = format!("directed regression-expressions {}", code);
+        let hl = pools::HIGHLIGHT[(ci + 1) % pools::HIGHLIGHT.len()];
+        let mut s = vec![Step::Call(Op::SetRulesDir(MOUNT_A.into())), Step::Call(Op::SetPref("BrailleCode".into(), code.to_string())), Step::Call(Op::SetPref("BrailleNavHighlight".into(), hl.to_string()))];
+        for e in pools::REGRESSION_FROM..pools::VALID_EXPRS.len() {
+            s.push(Step::Call(Op::SetMathml(ExprRef::Pool(e))));
+            for k in 0..8 {
+                s.push(Step::Call(Op::Braille(IdRef::Nth(k))));
+            }
+            for k in 0..10 {
+                s.push(Step::Call(Op::NodeFromPos(PosRef::Abs(k))));
+            }
+            s.push(Step::Call(Op::Cmd("ZoomIn".into())));
+            s.push(Step::Call(Op::BraillePos));
+            s.push(Step::Call(Op::Cmd("MoveNext".into())));
+            s.push(Step::Call(Op::BraillePos));
+        }
+        t.sessions = vec![s];
+        v.push(t);
+    }
     // restoration on the error path: a read error inside routing with the user's highlight style Off
     for code in ["Nemeth", "UEB"] {
         for nth in 1..=3 {
